@@ -228,6 +228,15 @@ func flagBoundary(p *Prog, before, after string) {
 			addFlag(p, "zone:boundary-lt")
 		}
 	}
+	// the end of a comment split by the node: the engine does not see "-->" and goes on dropping the author's text as
+	// comment content (same class as K-cmt: comment corner cases in which author markup is silently lost)
+	for _, pat := range []string{"-->", "--!>"} {
+		for cut := 1; cut < len(pat); cut++ {
+			if strings.HasSuffix(before, pat[:cut]) && strings.HasPrefix(after, pat[cut:]) {
+				addFlag(p, "zone:K-cmt")
+			}
+		}
+	}
 	// the end tag of a special element split by the node (anywhere from directly after its '<' on): the engine does not
 	// recognise the end tag and goes on treating what follows as the element's body (known deviation K-endsplit,
 	// harmless direction)
